@@ -95,8 +95,17 @@ func selfTest(c *Ctx) {
 	expect("HoistTrace rejects a removed definition", strings.Contains(to.Rejected["def-removed"], "missing"), to.Rejected["def-removed"])
 
 	// 2. LexTrace: one start column off by one
-	_, le, _ := lexInput("lex-good", []int{0, 9, 4}, []int{0, 1, 3, 0})
-	_, lb, _ := lexInput("lex-bad", []int{0, 9, 4}, []int{0, 1, 3, 0})
+	lexIdx := func(text string) int {
+		for i, l := range lexReps {
+			if l.text() == text {
+				return i
+			}
+		}
+		return 0
+	}
+	pick := []int{lexIdx("abc"), lexIdx(`"x y"`), lexIdx("7")}
+	_, le, _ := lexInput("lex-good", pick, []int{0, 1, 3, 0})
+	_, lb, _ := lexInput("lex-bad", pick, []int{0, 1, 3, 0})
 	for _, e := range lb {
 		if e["ev"] == "tok" && e["lit"] == "7" {
 			o := e["obs"].(map[string]interface{})
@@ -132,6 +141,34 @@ func selfTest(c *Ctx) {
 	_, d2 := rs.Diverged["flipped"]
 	expect("Refine accepts the real output", !d1, "")
 	expect("Refine rejects the output with goto_if_ge changed to goto_if_gt", d2, fmt.Sprint(rs.Diverged))
+
+	// 4b. Refine with inline data: the real output is accepted; the same output with the hoisted
+	//     text changed, with the movement one step short, and with the two labels swapped at the
+	//     call sites are each rejected
+	dp := &Prog{Scripts: []Script{{Name: "D", Body: []Stmt{
+		{K: "if", Arms: []Arm{{Cond: &Expr{K: "leaf", Typ: "flag", Opnd: "FLAG_A", Form: "bare"}, Body: []Stmt{
+			{K: "cmd", Toks: []string{"msgbox", "@inl0", ",", "MSGBOX_DEFAULT"}, Inl: []Inline{{Kind: "text", Parts: []string{"Hello\\n", "there"}}}}}}}},
+		{K: "cmd", Toks: []string{"applymovement", "1", ",", "@inl0"}, Inl: []Inline{{Kind: "moves", Steps: []ListItem{{Name: "walk_up", Mul: "3"}, {Name: "face_down"}}}}},
+		{K: "cmd", Toks: []string{"say", "@inl0"}, Inl: []Inline{{Kind: "text", Parts: []string{"bye"}, Type: "ascii"}}}}}}}
+	dsrc := RenderProg(dp, Style{})
+	dres := Compile(dsrc, Opts{Optimize: true})
+	if dres.Err != nil {
+		c.Fatal("selftest setup failed: %v", dres.Err)
+		return
+	}
+	dcases := []*RefCase{{ID: "data-real", Prog: dp, Src: dsrc, Out: dres.Out},
+		{ID: "data-text-changed", Prog: dp, Src: dsrc, Out: strings.Replace(dres.Out, "there$", "their$", 1)},
+		{ID: "data-step-lost", Prog: dp, Src: dsrc, Out: strings.Replace(dres.Out, "\twalk_up\n", "", 1)},
+		{ID: "data-directive", Prog: dp, Src: dsrc, Out: strings.Replace(dres.Out, ".ascii", ".string", 1)},
+		{ID: "data-swapped", Prog: dp, Src: dsrc, Out: strings.Replace(strings.Replace(dres.Out, "msgbox D_Text_0", "msgbox D_Text_1", 1), "say D_Text_1", "say D_Text_0", 1)}}
+	ds := &RefineStats{Diverged: map[string]string{}}
+	runRefineBatch(c, "selftest.data", dcases, ds, 5*time.Minute)
+	_, dd := ds.Diverged["data-real"]
+	expect("Refine accepts the real output with inline text and moves()", !dd, "")
+	for _, id := range []string{"data-text-changed", "data-step-lost", "data-directive", "data-swapped"} {
+		_, bad := ds.Diverged[id]
+		expect("Refine rejects "+id, bad, "")
+	}
 
 	// 5. coverage of the product on a mixed batch: every action of Refine and every arm of the
 	//    semantics' case analyses is taken
